@@ -83,6 +83,8 @@ type evmAcct struct {
 	bal, nonce *Term
 	exists     bool
 	hasCode    bool
+	program    int    // behaviour of the deployed code (see zzverif programs)
+	third      string // the address the code calls
 }
 
 type modelStateDB struct {
@@ -478,6 +480,9 @@ func registerEVM(ex *Explorer) {
 		from := addrKey(args[0])
 		out := []byte("zzC" + from)[:20]
 		out[19] ^= 0x5a
+		if nb, ok := concreteBig(args[1]); ok {
+			out[18] ^= byte(nb.Uint64())
+		}
 		return addrArray(string(out))
 	})
 }
@@ -529,8 +534,13 @@ func applyMessageModel(fr *frame, args []value) value {
 			return errRes("nonce too low")
 		}
 	}
-	// buyGas: with gasFeeCap = 0 the balance check covers the value only
-	if c.branch(Lt(getBal(fromA), value_)) {
+	// London pre-check and buyGas (state_transition.go): the balance check uses
+	// the fee cap, the purchase the gas price
+	feeCap, tipCap := bigTerm(fld("gasFeeCap")), bigTerm(fld("gasTipCap"))
+	if c.branch(Lt(feeCap, tipCap)) {
+		return errRes("max priority fee per gas higher than max fee per gas")
+	}
+	if c.branch(Lt(getBal(fromA), Add(Mul(gas, feeCap), value_))) {
 		return errRes("insufficient funds for gas * price + value")
 	}
 	gp := args[2].(*value)
@@ -581,52 +591,81 @@ func applyMessageModel(fr *frame, args []value) value {
 	i.callMethod(fr, sdbI, "PrepareAccessList", fromA, toPtr, pcs, []value(nil))
 	targetA := addrArray(target)
 	var vmErr string
-	// ---- evm.Create / evm.Call with an abstract program
-	i.callMethod(fr, sdbI, "SetNonce", fromA, mkScalar(c, types.Uint64, Wrap(kU64, Add(getNonce(fromA), IntConst64(1)))))
-	if creation {
-		i.callMethod(fr, sdbI, "AddAddressToAccessList", targetA)
-	}
-	outer := i.callMethod(fr, sdbI, "Snapshot")
-	if creation {
-		i.callMethod(fr, sdbI, "CreateAccount", targetA)
-		i.callMethod(fr, sdbI, "SetNonce", targetA, uint64(1))
-	} else if ex := i.callMethod(fr, sdbI, "Exist", targetA); ex == false {
-		i.callMethod(fr, sdbI, "CreateAccount", targetA)
-	}
-	call(i, fr, token.NoPos, trFn, []value{sdbI, fromA, targetA, mkBig(value_)})
-	third := make([]byte, 20)
-	third[0], third[19] = 0xE0, 0x07
-	thirdA := addrArray(string(third))
-	behaviour := c.choose(5)
-	c.nondets[c.uniqueName("evm.program")] = IntConst64(int64(behaviour))
-	inner := func(revertInner bool) {
-		// nested call: contract -> third party, moving part of the contract's balance
-		i.callMethod(fr, sdbI, "AddAddressToAccessList", thirdA)
-		s2 := i.callMethod(fr, sdbI, "Snapshot")
-		amt := c.nondet("evm.inner.amount", kU256)
-		c.assume(Le(amt, getBal(targetA)))
-		call(i, fr, token.NoPos, trFn, []value{sdbI, targetA, thirdA, mkBig(amt)})
-		if revertInner {
-			i.callMethod(fr, sdbI, "RevertToSnapshot", s2)
-		}
-	}
 	gasLeft := c.nondet("evm.gasLeft", kU64)
 	c.assume(Le(gasLeft, left))
-	switch behaviour {
-	case 0: // plain success
-	case 1: // success with a nested transfer
-		inner(false)
-	case 2: // REVERT after a nested transfer
-		inner(false)
-		vmErr = "execution reverted"
-		i.callMethod(fr, sdbI, "RevertToSnapshot", outer)
-	case 3: // nested call fails, outer succeeds
-		inner(true)
-	case 4: // hard failure: all gas consumed
-		inner(false)
-		vmErr = "invalid opcode"
-		i.callMethod(fr, sdbI, "RevertToSnapshot", outer)
-		gasLeft = IntConst64(0)
+	msdb, _ := unwrapModelSDB(sdbI)
+	// evmCall mirrors vm.EVM.Call for the abstract programs:
+	//   0 STOP | 1 CALL(third, value 1) then STOP | 2 CALL then REVERT | 4 CALL then INVALID
+	var evmCall func(caller, addr array, val *Term, depth int) string
+	runProgram := func(self array, depth int) string {
+		if msdb == nil {
+			return ""
+		}
+		ac := msdb.acct(addrKey(self))
+		if !ac.hasCode || ac.program == 0 || depth > 3 {
+			return ""
+		}
+		tgt := addrArray(ac.third)
+		if inList := i.callMethod(fr, sdbI, "AddressInAccessList", tgt); inList == false {
+			i.callMethod(fr, sdbI, "AddAddressToAccessList", tgt)
+		}
+		_ = evmCall(self, tgt, IntConst64(1), depth+1) // result ignored by the program
+		switch ac.program {
+		case 2:
+			return "execution reverted"
+		case 4:
+			return "invalid opcode: INVALID"
+		}
+		return ""
+	}
+	evmCall = func(caller, addr array, val *Term, depth int) string {
+		if c.branch(Gt(val, IntConst64(0))) {
+			ok := call(i, fr, token.NoPos, canFn, []value{sdbI, caller, mkBig(val)})
+			if !c.branch(termOf(ok)) {
+				return "insufficient balance for transfer"
+			}
+		}
+		sn := i.callMethod(fr, sdbI, "Snapshot")
+		if ex := i.callMethod(fr, sdbI, "Exist", addr); ex == false {
+			i.callMethod(fr, sdbI, "CreateAccount", addr)
+		}
+		call(i, fr, token.NoPos, trFn, []value{sdbI, caller, addr, mkBig(val)})
+		errS := runProgram(addr, depth)
+		if errS != "" {
+			i.callMethod(fr, sdbI, "RevertToSnapshot", sn)
+		}
+		return errS
+	}
+	behaviour := 0
+	if creation {
+		// evm.Create: nonce bump, new account, value transfer, init code = marker program
+		i.callMethod(fr, sdbI, "SetNonce", fromA, mkScalar(c, types.Uint64, Wrap(kU64, Add(getNonce(fromA), IntConst64(1)))))
+		i.callMethod(fr, sdbI, "AddAddressToAccessList", targetA)
+		outer := i.callMethod(fr, sdbI, "Snapshot")
+		i.callMethod(fr, sdbI, "CreateAccount", targetA)
+		i.callMethod(fr, sdbI, "SetNonce", targetA, uint64(1))
+		call(i, fr, token.NoPos, trFn, []value{sdbI, fromA, targetA, mkBig(value_)})
+		prog, third, okp := parseProgram(data)
+		if !okp {
+			vmErr = "invalid opcode: init code is not one of the modelled programs"
+			i.callMethod(fr, sdbI, "RevertToSnapshot", outer)
+			gasLeft = IntConst64(0)
+		} else if msdb != nil {
+			ac := msdb.acct(target)
+			oh, op, ot := ac.hasCode, ac.program, ac.third
+			msdb.journal = append(msdb.journal, func() { ac.hasCode, ac.program, ac.third = oh, op, ot })
+			ac.hasCode, ac.program, ac.third = true, prog, third
+			behaviour = 100 + prog
+		}
+	} else {
+		i.callMethod(fr, sdbI, "SetNonce", fromA, mkScalar(c, types.Uint64, Wrap(kU64, Add(getNonce(fromA), IntConst64(1)))))
+		vmErr = evmCall(fromA, targetA, value_, 0)
+		if msdb != nil {
+			behaviour = msdb.acct(target).program
+		}
+		if vmErr != "" && vmErr != "execution reverted" {
+			gasLeft = IntConst64(0)
+		}
 	}
 	if sdb, ok := unwrapModelSDB(sdbI); ok {
 		sdb.note("tx", &snap{kind: 'T', str: from}, &snap{kind: 'T', str: target}, &snap{kind: 'I', term: IntConst64(int64(behaviour))}, &snap{kind: 'U', term: value_})
@@ -634,8 +673,10 @@ func applyMessageModel(fr *frame, args []value) value {
 	// refund of unused gas; tip is zero (London, zero fee caps)
 	i.callMethod(fr, sdbI, "AddBalance", fromA, mkBig(Mul(gasLeft, price)))
 	*gp = mkScalar(c, types.Uint64, Add(termOf(*gp), gasLeft))
+	// London: effective tip = min(tip cap, fee cap - base fee), base fee = 0
 	coinbase := e.blockCtx[fieldIndex(e.bctxType, "Coinbase")]
-	i.callMethod(fr, sdbI, "AddBalance", coinbase, mkBig(IntConst64(0)))
+	tip := Ite(Lt(tipCap, feeCap), tipCap, feeCap)
+	i.callMethod(fr, sdbI, "AddBalance", coinbase, mkBig(Mul(Sub(gas, gasLeft), tip)))
 	// result
 	rt := namedType(fr, gethCore, "ExecutionResult")
 	res := zero(rt).(structure)
@@ -648,6 +689,28 @@ func applyMessageModel(fr *frame, args []value) value {
 	}
 	var cell value = res
 	return tuple{&cell, iface{}}
+}
+
+// parseProgram recognises the init code built by the harness
+// (zzverif-style): 11 bytes of deployment prefix, then the runtime code
+// 60 <id> 50 | 60 00 60 00 60 00 60 00 60 01 73 <third:20> 5A F1 50 <tail>.
+func parseProgram(data []value) (int, string, bool) {
+	bz, ok := concreteBytes(data)
+	if !ok || len(bz) < 14 || bz[11] != 0x60 || bz[13] != 0x50 {
+		return 0, "", false
+	}
+	id := int(bz[12])
+	rt := bz[11:]
+	switch id {
+	case 0:
+		return 0, "", true
+	case 1, 2, 4:
+		if len(rt) < 37 {
+			return 0, "", false
+		}
+		return id, string(rt[14:34]), true
+	}
+	return 0, "", false
 }
 
 // unwrapModelSDB digs the model out of a StateDBWrapper (or a bare *StateDB).
